@@ -98,7 +98,7 @@ impl<F: TimerFlavour> TimerSut<F> {
 
 impl<F: TimerFlavour> Drop for TimerSut<F> {
     fn drop(&mut self) {
-        self.futs.clear();
+        self.futs.drop_live();
         unsafe { drop(Box::from_raw(self.raw)) };
     }
 }
@@ -138,7 +138,15 @@ impl<F: TimerFlavour> Sut for TimerSut<F> {
                 if f == 0 || f > self.futs.k() || self.futs.is_live(f) {
                     return None;
                 }
-                let real = if d >= INF { Duration::from_millis(u64::MAX) } else { Duration::from_millis(d) };
+                // d >= INF stands for durations at and beyond the u64 millisecond range
+                let real = match d {
+                    x if x < INF => Duration::from_millis(x),
+                    x if x == INF => Duration::from_millis(u64::MAX),
+                    x if x == INF + 1 => Duration::from_secs(1 << 61),
+                    x if x == INF + 2 => Duration::from_secs((1 << 61) + 1),
+                    x if x == INF + 3 => Duration::from_secs(u64::MAX / 1000 + 7),
+                    _ => Duration::MAX,
+                };
                 match lib(|| F::delay(t, real)) {
                     Ok(fut) => {
                         let val = cap(F::node(&fut).extra);
@@ -275,7 +283,7 @@ impl<F: TimerFlavour> Sut for TimerSut<F> {
                 0 | 1 | 2 => {
                     if !self.futs.is_live(f) {
                         if rng.below(5) == 0 {
-                            let d = if rng.below(6) == 0 { INF } else { self.delays[rng.below(self.delays.len())] };
+                            let d = if rng.below(3) == 0 { INF + rng.below(5) as u64 } else { self.delays[rng.below(self.delays.len())] };
                             return json!({"op": "delay", "f": f, "d": d});
                         }
                         let t = self.deadlines[rng.below(self.deadlines.len())];
